@@ -47,6 +47,12 @@ def scenarios(tier, rng):
         pspec, full = P[pname]
         out.append(base_scenario(f"{kind}-{pname}-f1-to-convergence", kind, pname, pspec, full, 1, 2, rng.random() < 0.5,
                                  [{"ops": [{"op": "new"}, {"op": "solve", "k": BIG}, {"op": "wait"}, {"op": "list", "dir": "@A"}]}]))
+    # more than nine retained checkpoints, steps with one and two digits
+    pspec, full = P["tabular"]
+    out.append(base_scenario("VI-tabular-keep12-f1", "VI", "tabular", pspec, full, 1, 12, False,
+                             [{"ops": [{"op": "new"}, {"op": "solve", "k": 15}, {"op": "wait"}, {"op": "list", "dir": "@A"}]},
+                              {"ops": [{"op": "list", "dir": "@A"}, restore_op(full), {"op": "solve", "k": 3},
+                                       {"op": "wait"}, {"op": "list", "dir": "@A"}]}]))
     # the listed finding: restore an OLDER explicit step into the same directory, then one more iteration
     pspec, full = P["forest"]
     for kind in ("VI", "PI"):
